@@ -19,8 +19,8 @@ partial def goVal? : Sexp → Option GoVal
     pure (.float (← asNat? bits) (decodeF64 (← asNat? ieee)) (← asBytes? r64) (← asBytes? rOwn))
   | .node "ptr" [t, .atom "nil"] => do pure (.ptr (← asBytes? t) none)
   | .node "ptr" [t, v] => do pure (.ptr (← asBytes? t) (some (← goVal? v)))
-  | .node "iface" [.atom "nil"] => some (.iface none)
-  | .node "iface" [v] => do pure (.iface (some (← goVal? v)))
+  | .node "iface" [.bytes t, .atom "nil"] => some (.iface t none)
+  | .node "iface" [.bytes t, v] => do pure (.iface t (some (← goVal? v)))
   | .node "slice" (t :: e :: n :: vs) => do
     pure (.slice (← asBytes? t) (← asBytes? e) (← asBool? n) (GoVals.ofList (← vs.mapM goVal?)))
   | .node "array" (t :: e :: vs) => do
@@ -111,7 +111,7 @@ mutual
 /-- all variants of a value obtained by reordering map entries (capped) -/
 partial def variants : GoVal → List GoVal
   | .ptr t (some v) => (variants v).map fun v' => .ptr t (some v')
-  | .iface (some v) => (variants v).map fun v' => .iface (some v')
+  | .iface t (some v) => (variants v).map fun v' => .iface t (some v')
   | .slice t e n es => (variantsList es.toList).map fun l => .slice t e n (GoVals.ofList l)
   | .array t e es => (variantsList es.toList).map fun l => .array t e (GoVals.ofList l)
   | .map t k n es =>
